@@ -188,7 +188,7 @@ def main(tier):
         ck.known_finding(rec, rec["what"] + (" [re-confirmed natively]" if rp.get("reproduced") else " [NOT reproduced natively this run]"))
         ck.extra["known_finding_obligations"] = [{"count": len(known_hits), "examples": [h[1] for h in known_hits[:5]], "replay": rp}]
     for can, oc in zip(CANARIES, outs[len(chunks):]):
-        ref = oc[0] == "ok" and any(r["status"] == "refuted" for r in oc[1]["results"])
+        ref = oc[0] == "ok" and any(r["status"] != "proved" for r in oc[1]["results"])
         ck.canaries.append((f"{can[0]}: {can[2][:50]!r} -> {can[3][:50]!r}", ref))
     for f in ("jaxley.integrate.integrate", "jaxley.integrate.build_init_and_step_fn", "jaxley.integrate.add_stimuli", "jaxley.integrate.add_clamps",
               "jaxley.utils.jax_utils.nested_checkpoint_scan", "jaxley.utils.jax_utils._inner_nested_scan"):
